@@ -1439,7 +1439,20 @@ func (c *connection) Join(conn net.Conn, id string, dial gen.NetworkDial, tail [
 				if err != nil {
 					continue
 				}
-				pi.connection = nc
+				// the re-dialled link replaces the lost one in the pool (with a flusher of its own:
+				// the old one writes into the closed connection)
+				npi := &pool_item{
+					connection: nc,
+					fl:         lib.NewFlusher(nc),
+				}
+				c.pool_mutex.Lock()
+				for i, item := range c.pool {
+					if item == pi {
+						c.pool[i] = npi
+					}
+				}
+				c.pool_mutex.Unlock()
+				pi = npi
 				tail = t
 
 				goto re
